@@ -1721,6 +1721,8 @@ def compose_stream(ctx, cirq, n):
         except Unsupported:
             continue
         except Exception as ex:
+            if isinstance(ex, Timeout) and (has_cycle(r1) or has_cycle(r2)):
+                continue            # a cyclic dictionary: no answer is owed (a cycle through a function head grows until Python gives up)
             # composing evaluates r1's and r2's own entries with value_of: is it a value_of failure on one of them?
             res = [spec_value_of(ctx, cirq, r1, sympy.Symbol(k), True, None, 'compose') for k, _ in r1]
             res += [spec_value_of(ctx, cirq, r2, sympy.Symbol(k), True, None, 'compose') for k, _ in r2]
